@@ -962,6 +962,10 @@ def decorate(b, rng, kinds):
             e = b.elin([(m, r2(1.2 + rng.random()))], const=r2(0.05 + 0.1 * rng.random()))
             b.metric(e)
             b.ops[-1]["name"] = label
+        elif kind == "manual_class_constraints" and info.get("main_f"):
+            # the user generates the class constraints by hand before solving (once or twice)
+            for _ in range(rng.choice([1, 1, 2])):
+                b.emit(op="setcc", f=info["main_f"])
         elif kind == "orphan_psd" and info.get("metrics"):
             # a PSDMatrix object that is created but never added to the model
             b.psd([[info["metrics"][0], 0.0], [0.0, 1.0]], target=None)
@@ -970,7 +974,7 @@ def decorate(b, rng, kinds):
 
 DECORATIONS = ["extra_metric", "redundant_cons", "eq_cons", "func_cons", "lmi_sym", "lmi_asym", "lmi_func", "lmi3",
                "unused_query", "useless_partition", "orphan_psd", "part_cons", "zero_coef", "mirror", "leaf_metric",
-               "leaf_sides", "composite_items", "double_reg", "idle_operator", "lmi_affine", "tiny_scale", "raw_zero_lmi", "same_name_metrics"]
+               "leaf_sides", "composite_items", "double_reg", "idle_operator", "lmi_affine", "tiny_scale", "raw_zero_lmi", "same_name_metrics", "manual_class_constraints"]
 
 
 def build_model(rng, prefix="", template=None, n=None, decorations=None, names=None, weights=None,
